@@ -1013,6 +1013,77 @@ func init() {
 			}
 		}
 		{
+			// [dead_code] enabled: Execute skips dead code detection when the file says enabled = false, unless the analyses were
+			// named explicitly (--select sets ExplicitSelection in createUseCaseConfig)
+			ex := findFunc(appp, "analyze_usecase.go", "AnalyzeUseCase", "Execute")
+			dd := findFunc(appp, "analyze_usecase.go", "AnalyzeUseCase", "deadCodeDisabledInConfig")
+			guarded := false
+			if ex != nil {
+				ast.Inspect(ex, func(nd ast.Node) bool {
+					is, ok := nd.(*ast.IfStmt)
+					if !ok {
+						return true
+					}
+					be, ok := is.Cond.(*ast.BinaryExpr)
+					if !ok || be.Op != token.LAND {
+						return true
+					}
+					u, ok1 := be.X.(*ast.UnaryExpr)
+					ce, ok2 := be.Y.(*ast.CallExpr)
+					if !ok1 || !ok2 || u.Op != token.NOT || selName(u.X) != "useCaseCfg.ExplicitSelection" || selName(ce.Fun) != "uc.deadCodeDisabledInConfig" ||
+						len(ce.Args) != 1 || selName(ce.Args[0]) != "useCaseCfg.ConfigFile" {
+						return true
+					}
+					if len(is.Body.List) == 1 && is.Else == nil {
+						if as, ok := is.Body.List[0].(*ast.AssignStmt); ok && len(as.Lhs) == 1 && selName(as.Lhs[0]) == "useCaseCfg.SkipDeadCode" &&
+							len(as.Rhs) == 1 && selName(as.Rhs[0]) == "true" {
+							guarded = true
+						}
+					}
+					return true
+				})
+			}
+			readsKey := false
+			if dd != nil {
+				ast.Inspect(dd, func(nd ast.Node) bool {
+					if u, ok := nd.(*ast.UnaryExpr); ok && u.Op == token.NOT && selName(u.X) == "cfg.DeadCode.Enabled" {
+						readsKey = true
+					}
+					return true
+				})
+			}
+			// createUseCaseConfig: ExplicitSelection = true exactly in the --select branch
+			selectSets := false
+			ast.Inspect(cu, func(nd ast.Node) bool {
+				is, ok := nd.(*ast.IfStmt)
+				if !ok || !strings.Contains(src(cmd, is.Cond), "c.selectAnalyses") {
+					return true
+				}
+				inThen, inElse := false, false
+				find := func(n ast.Node, hit *bool) {
+					if n == nil {
+						return
+					}
+					ast.Inspect(n, func(n2 ast.Node) bool {
+						if as, ok := n2.(*ast.AssignStmt); ok && len(as.Lhs) == 1 && selName(as.Lhs[0]) == "config.ExplicitSelection" {
+							*hit = true
+						}
+						return true
+					})
+				}
+				find(is.Body, &inThen)
+				if is.Else != nil {
+					find(is.Else, &inElse)
+				}
+				selectSets = inThen && !inElse
+				return false
+			})
+			fmt.Fprintf(&b, "Definition analyze_dead_code_enabled_uses_file : bool := %v.\n", guarded && readsKey && selectSets)
+			if dd != nil {
+				recordDigest(appp, "analyze_usecase.go", "AnalyzeUseCase", "deadCodeDisabledInConfig")
+			}
+		}
+		{
 			// the include / exclude patterns analyze falls back to without a configuration file (getFilePatterns) and the ones
 			// a configuration file that does not set them comes with (DefaultPyscnConfig)
 			gf := findFunc(appp, "analyze_usecase.go", "AnalyzeUseCase", "getFilePatterns")
